@@ -167,6 +167,12 @@ CASES = [
     ("m-c12-percent-eq", "C12", "fire", "xdis/opcodes/opcode_311.py", "    opname = opname.replace(\"%\", \"%%\")", "    if opname == \"%\":\n        opname = \"%%\"", "format:%="),
     ("m-c12-bad-constant-format", "C12", "fire", "xdis/opcodes/opcode_35.py", "\"%s @= %s\"", "\"%s @= %\"", "format:"),
     ("s-c12-arglist-len-guard", "C12", "silent", "xdis/opcodes/format/extended.py", "        if (\n            arglist\n            and instructions[1].opname == \"MAKE_FUNCTION\"", "        if (\n            len(arglist) > 0\n            and instructions[1].opname == \"MAKE_FUNCTION\"", ""),
+    ("m-c15-std-wrong-table", "C15", "fire", "xdis/std.py", "        return _stack_effect(opcode, self.opc, oparg, jump)", "        return _stack_effect(opcode, opc, oparg, jump)", "passes-own-table"),
+    ("m-c20-missing-name", "C20", "fire", "xdis/std.py", "hasjabs = _std_api.hasjabs\n", "", "dis.__all__:hasjabs"),
+    ("m-c09-hasexc", "C09", "fire", "xdis/opcodes/opcode_312.py", "loc.update({\"hasexc\": [256, 257, 258]})", "loc.update({\"hasexc\": [264, 265, 266]})", "hasexc"),
+    ("m-c11-eof-returns", "C11", "fire", "xdis/unmarshal.py", "        byte1 = ord(self.fp.read(1))\n", "        byte1 = self.fp.read(1)\n        if not byte1:\n            return None\n        byte1 = ord(byte1)\n", "end-of-input-raises"),
+    ("s-c11-eof-raises", "C11", "silent", "xdis/unmarshal.py", "        byte1 = ord(self.fp.read(1))\n", "        byte1 = self.fp.read(1)\n        if not byte1:\n            raise EOFError(\"marshal data too short\")\n        byte1 = ord(byte1)\n", ""),
+    ("m-c04-stale-hasjabs", "C04", "fire", "xdis/opcodes/base.py", "    if op in loc[\"hasjabs\"]:\n        loc[\"hasjabs\"].remove(op)\n", "", "jump-category"),
     # ---------------- whole-package reformat, one case per property
     ("s-c01-reformat", "C01", "silent", "*REFORMAT*", "", "", ""),
     ("s-c02-reformat", "C02", "silent", "*REFORMAT*", "", "", ""),
